@@ -178,3 +178,37 @@ def _observe_future(lf):
 
 Future.real = _real_future
 Future.observe = _observe_future
+
+
+# ---- trio memory channel (send side) and asyncio loop task creation ------------------------------------------------
+Chan = TAbs("trio.SendChannel", fields=dict(closed=BOOL), events=False)
+
+
+def _chan_send(kind, is_async):
+    return amethod(
+        "channel." + kind, {"self": Chan, "item": ANYT},
+        doc="unbounded memory channel: send never blocks; delivers the item once; raises ClosedResourceError on a closed send channel / BrokenResourceError on a closed receiver",
+        requires=None,
+        ensures=lambda c, self, item: c.Not(flag(self, "closed")),
+        raises={"trio.ClosedResourceError": lambda c, self, item, exc: flag(self, "closed"), "trio.BrokenResourceError": lambda c, self, item, exc: True},
+        emits_after=lambda c, ctx, outcome, value, self, item: ctx.emit("chan.send" if outcome == "return" else "chan.send-failed", self, item),
+        has_events=True, is_async=is_async, exact_raises=True)
+
+
+Chan.methods["send"] = _chan_send("send", True)
+Chan.methods["send_nowait"] = _chan_send("send_nowait", False)
+Chan.methods["aclose"] = amethod("channel.aclose", {"self": Chan}, writes=lambda c, self: [(self, "closed")], ensures=lambda c, self: flag(self, "closed"),
+                                 raises={"trio.Cancelled": lambda c, self, exc: True}, exact_raises=True,
+                                 emits=lambda c, ctx, self: ctx.emit("chan.aclose", self), has_events=True, is_async=True)
+
+
+def _create_task_emits(c, ctx, self, coro):
+    fi, args = coro.origin
+    ctx.emit("create_task", self, fi.key, args[0] if args else None, args[1] if len(args) > 1 else None)
+
+
+Task = TRef()
+ALoop.methods["create_task"] = amethod("loop.create_task", {"self": ALoop, "coro": None}, doc="create_task(coro): coro runs as a task on the loop thread",
+                                       result=Task, fresh_result=True, emits=_create_task_emits, has_events=True)
+ALoop.methods["create_future"] = amethod("loop.create_future", {"self": ALoop}, result=Future, fresh_result=True,
+                                         ensures=lambda c, self, result: c.Not(flag(result, "is_done")))
